@@ -15,6 +15,7 @@ import (
 	"github.com/nspcc-dev/neo-go/pkg/crypto/keys"
 	"github.com/nspcc-dev/neo-go/pkg/io"
 	"github.com/nspcc-dev/neo-go/pkg/smartcontract/callflag"
+	"github.com/nspcc-dev/neo-go/pkg/smartcontract/scparser"
 	"github.com/nspcc-dev/neo-go/pkg/smartcontract/trigger"
 	"github.com/nspcc-dev/neo-go/pkg/util"
 	"github.com/nspcc-dev/neo-go/pkg/vm/emit"
@@ -32,11 +33,16 @@ import (
 //	fresh      single-signature account of RoleKeys[1] (holds no GAS unless the case funds it)
 //	outsider   single-signature account Accounts[4+Key%2] (never a signer of the transaction under test)
 type SignerSpec struct {
-	Kind  string `json:"kind"`
-	Key   int    `json:"key,omitempty"`
-	M     int    `json:"m,omitempty"`
-	N     int    `json:"n,omitempty"`
-	Scope int    `json:"scope,omitempty"` // 0 Global 1 CalledByEntry 2 None 3 CustomContracts 4 CustomGroups 5 Rules(bool) 6 Rules(and/not) 7 CalledByEntry|CustomContracts
+	Kind string `json:"kind"`
+	Key  int    `json:"key,omitempty"`
+	M    int    `json:"m,omitempty"`
+	N    int    `json:"n,omitempty"`
+	// Spell > 0 (multi only): the same m-of-n script with one of its two counts pushed by another instruction than the
+	// builder's (same numbers for the VM): odd - the signature count, even - the key count; (Spell-1)/2 picks PUSHINT8,
+	// PUSHINT16, PUSHINT32, PUSHINT64, PUSHINT128, PUSHINT256. The script counts as a standard witness exactly when the
+	// repository's own classifier (scparser.IsMultiSigContract) says so.
+	Spell int `json:"spell,omitempty"`
+	Scope int `json:"scope,omitempty"` // 0 Global 1 CalledByEntry 2 None 3 CustomContracts 4 CustomGroups 5 Rules(bool) 6 Rules(and/not) 7 CalledByEntry|CustomContracts
 }
 
 // AttrSpec is one attribute of a generated transaction.
@@ -130,6 +136,11 @@ func (k *kit) resolve(s SignerSpec) (rsigner, error) {
 			ks[i] = multiPool[mod(s.Key+i, len(multiPool))]
 		}
 		a := ck.Multisig(m, ks)
+		if s.Spell > 0 {
+			a.Ver = respellCounts(a.Ver, m, n, s.Spell)
+			a.Hash = hash.Hash160(a.Ver)
+			return rsigner{kind: s.Kind, actor: &a, hash: a.Hash, standard: scparser.IsMultiSigContract(a.Ver)}, nil
+		}
 		return rsigner{kind: s.Kind, actor: &a, hash: a.Hash, standard: true}, nil
 	case "committee":
 		a := k.b.CommitteeActor()
@@ -143,6 +154,33 @@ func (k *kit) resolve(s SignerSpec) (rsigner, error) {
 		return rsigner{kind: s.Kind, hash: nativehashes.Notary}, nil
 	}
 	return rsigner{}, fmt.Errorf("unknown signer kind %q", s.Kind)
+}
+
+// respellCounts rewrites the count pushes of a builder-made m-of-n script (n <= 16: both are one-byte PUSHm / PUSHn).
+func respellCounts(ver []byte, m, n, spell int) []byte {
+	if n > 16 || len(ver) != 1+35*n+1+5 || spell < 1 {
+		return ver
+	}
+	wide := func(v int) []byte {
+		i := (spell - 1) / 2 % 6
+		b := make([]byte, 1+(1<<uint(i)))
+		b[0] = byte(int(opcode.PUSHINT8) + i)
+		b[1] = byte(v)
+		return b
+	}
+	var out []byte
+	if spell%2 == 1 {
+		out = append(out, wide(m)...)
+	} else {
+		out = append(out, ver[0])
+	}
+	out = append(out, ver[1:1+35*n]...)
+	if spell%2 == 0 {
+		out = append(out, wide(n)...)
+	} else {
+		out = append(out, ver[1+35*n])
+	}
+	return append(out, ver[1+35*n+1:]...)
 }
 
 func boolCond(v bool) *transaction.ConditionBoolean {
